@@ -1527,11 +1527,20 @@ fn build_op(which: u64, r: &mut Rng, env: &mut Env, regs: &mut Regions, want: Kd
             let mut bits: u32 = 0;
             let mut mode = 0o666u32;
             let mut nk = Kd::Regular;
-            for _ in 0..r.below(6) {
-                match r.below(12) {
+            // Up to eight builder calls, the three access-mode calls twice as likely as the others
+            // (their effect depends on what was called before: write_only().write() stays write-only).
+            for _ in 0..r.below(4) {
+                match r.below(3) {
                     0 => { o = o.read(); rd = true; }
                     1 => { o = o.write(); wr = true; }
-                    2 => { o = o.write_only(); rd = false; wr = true; }
+                    _ => { o = o.write_only(); rd = false; wr = true; }
+                }
+            }
+            for _ in 0..r.below(9) {
+                match r.below(15) {
+                    0 | 12 => { o = o.read(); rd = true; }
+                    1 | 13 => { o = o.write(); wr = true; }
+                    2 | 14 => { o = o.write_only(); rd = false; wr = true; }
                     3 => { o = o.append(); bits |= libc::O_APPEND as u32; }
                     4 => { o = o.truncate(); bits |= libc::O_TRUNC as u32; }
                     5 => { o = o.create(); bits |= libc::O_CREAT as u32; }
